@@ -140,6 +140,10 @@ Section Mat.
   Definition np_rowdot (A B : list (list F)) : list F := map2 (dot O) A B.
   (* A / v[:, None] *)
   Definition np_rowscale_div (A : list (list F)) (v : list F) : list (list F) := map2 (fun a s => vdivs O a s) A v.
+  (* A / v[None, :] and A - v[:, None] *)
+  Definition np_colscale_div (A : list (list F)) (v : list F) : list (list F) := map (fun a => map2 (ndiv O) a v) A.
+  Definition np_rowshift_sub (A : list (list F)) (v : list F) : list (list F) :=
+    map2 (fun a m => map (fun x => nsub O x m) a) A v.
 
   (* the matrix of a binary function over a list of items (patterns, or pairs of training and test patterns) *)
   Definition pairwise {X} (f : X -> X -> F) (rows : list X) : list (list F) :=
